@@ -147,8 +147,12 @@ Definition send_data (s : vsock) (h : chdr) (f : for_sending) : step send_res :=
           let s2 := emit s1 {| p_hdr := hd; p_payload := payload |} in
           let s3 := set_segs s2 (on_sent (v_segs s2) (fs_idx f) (v_now s2)) in
           let s4 := on_packet_sent s3 hd in
+          (* seq_nr (the number of the next NEW packet) only ever moves forward: after an RTO
+             rewound last_sent_seq_nr later segments are still outstanding (repair of D13) *)
           let s5 := if seq_gt (fs_seq f) (v_last_sent_seq_nr s4)
-                    then set_seq_nr (set_last_sent_seq_nr s4 (fs_seq f)) (wadd16 (fs_seq f) 1)
+                    then let s4' := set_last_sent_seq_nr s4 (fs_seq f) in
+                         if seq_gt (wadd16 (fs_seq f) 1) (v_seq_nr s4')
+                         then set_seq_nr s4' (wadd16 (fs_seq f) 1) else s4'
                     else s4 in
           let s6 := set_t_retransmit s5 (timer_arm (v_t_retransmit s5) (v_now s5)
                                            (retransmission_timeout (v_rtte s5)) false) in
@@ -413,11 +417,21 @@ Definition split_tx_queue_into_segments (s : vsock) : step unit :=
           end in
       match pe with
       | PeExpired rewind_to payload_size =>
-          let s2 := set_rto_retransmissions (set_t_retransmit (set_segs s1 segs1) None) 0 in
+          (* other segments still unacknowledged keep a retransmission timer (repair of D14) *)
+          let s1' := set_segs s1 segs1 in
+          let s2 := set_rto_retransmissions
+                      (set_t_retransmit s1'
+                         (match ss_segs segs1 with
+                          | [] => None
+                          | _ => timer_arm (v_t_retransmit s1') (v_now s1')
+                                           (retransmission_timeout (v_rtte s1')) true
+                          end)) 0 in
           let s3 := if seq_gt (v_last_sent_seq_nr s2) rewind_to
                     then set_last_sent_seq_nr s2 rewind_to else s2 in
           cont (set_ss s3 (on_probe_failed (v_ss s3) payload_size))
-      | PeNotExpired => SOk s1 tt
+      | PeNotExpired =>
+          (* bytes written while the probe is outstanding are unsent data (repair of D10) *)
+          SOk (set_unsegmented s1 (sat_sub tx_len (ss_len_bytes (v_segs s1)))) tt
       | PeEmpty => cont s1
       end.
 
@@ -489,13 +503,15 @@ Definition state_table (s : vsock) (h : chdr) : table_res :=
   | ST_SYN => TblDrop s
   | _ =>
       match v_state s with
-      | Closed => TblErr s (ErrBug BugRecvInClosed)
+      | Closed => TblDrop s   (* already closed: ignored (repair of D15) *)
       | SynReceived => TblErr s (ErrBug BugUnexpectedPacketInSynReceived)
       | SynAckSent _ =>
           if data_or_state then
             if negb (ch_ack h =? wsub16 (v_seq_nr s) 1) then TblDrop s
             else TblContinue (set_state (restart_remote_inactivity_timer s) Established)
-          else (* ST_FIN *) TblContinue (set_state s Closed)
+          else (* ST_FIN: honoured only in sequence, as in the established states (repair of D19) *)
+            if negb (ch_seq h =? wadd16 (v_last_consumed s) 1) then TblDrop s
+            else TblContinue (set_state s Closed)
       | Established =>
           if data_or_state then TblContinue s
           else if negb (ch_seq h =? wadd16 (v_last_consumed s) 1) then TblDrop s
@@ -641,9 +657,8 @@ Definition process_all_incoming_messages (s : vsock) : step unit :=
   sbind (recv_loop (v_inbox s ++ [ {| m_hdr := outgoing_header s; m_payload := [] |} ]) s
                    on_ack_result_default)
   (fun s1 res =>
-    let '(r, early) := res in
-    if early then SOk s1 tt
-    else
+    (* the channel-closed arm `break`s: the bookkeeping below still runs (repair of D17) *)
+    let '(r, _) := res in
       let s2 :=
         if (0 <? ar_acked_segments r) || (0 <? ar_newly_sacked_segments r) then
           let s' := set_rto_retransmissions s1 0 in
